@@ -150,3 +150,15 @@ check("C13", "exploration",
       "the same parameter list; TLC judges every projected design. Exhaustive over the stated configuration ranges; no state space.",
       "trusted: TLC; exact matching of coordinates against supplied levels / bounds / mid-points",
       "TLC-evaluated structural predicates (checked on reference constructions) over projected real designs", "DESIGN.md 5/C13")
+
+check("C10", "model_checking",
+      "StoreApi.tla (create / mutate / sync_individual / sync_all over versioned individuals; rows never from the future, only for recorded "
+      "individuals, complete after sync_all, no regression) and Store.tla (connections, exclusive lock, Exec / Commit / Crash; returned "
+      "synchronisations are durable, last writer wins; the named deviations insert-ignore and batched-commit must violate it) are checked "
+      "exhaustively by TLC (3 ids, 2 connections, <=7 (9) operations). TLC-simulated API histories are executed on a real SqliteDataStore "
+      "with individuals from a pool of nasty values (+-inf, denormals, -0.0, 17-digit floats, numpy scalars, nested custom data, references "
+      "to other individuals, shared design vectors) and read back through ProblemViewDataStore plus a raw duplicate count; finished runs of "
+      "NSGA-II, eps-MOEA, OMOPSO, SMPSO, PSOGA, Sweep, ScipyOpt and NLopt are read back and compared with the live individuals; StoreTrace "
+      "judges every read (one row per id, nothing lost or invented, last synchronisation wins, data identical, problem definition).",
+      "trusted: TLC; the canonical bit-exact fingerprint (the encode/decode fidelity itself is decided by fingerprint equality, not by TLA+); "
+      "SQLite itself", "TLC exhaustive store models + TLC-simulated histories replayed on real SQLite + TLC trace validation", "DESIGN.md 5/C10")
